@@ -178,6 +178,8 @@ class InterpBase:
         if isinstance(v, BitV):
             if any(b == 1 for b in v.bits) or v.hi == 1:
                 return True
+            if v.key() in st.extra.get("nonzero", ()):
+                return True
             iv = interval(v)
             if iv is not None and iv[0] is not None and iv[0] > 0:
                 return True
